@@ -532,35 +532,58 @@ Proof.
   apply str_eqb_eq in He. subst x. destruct (str_eqb n name) eqn:E; [apply str_eqb_eq in E; congruence|reflexivity].
 Qed.
 
-Theorem release_cidr_keeps m node m' r : MapInv m -> wf_node node -> release_cidr m node = (m', r) ->
+Lemma occupy_service_grows e svc : EntryInv e -> wf_cidr svc -> grows e (occupy_service e svc).
+Proof.
+  intros E Hw. unfold occupy_service. destruct (pool_of e (cf svc)); [|apply grows_refl].
+  destruct (overlapb _ svc); [|apply grows_refl]. destruct (cc_occupy e svc) as [e'|er|] eqn:Eo; try apply grows_refl.
+  eapply cc_occupy_grows; eassumption.
+Qed.
+Lemma occupy_service_assoc e svc : cc_assoc (occupy_service e svc) = cc_assoc e.
+Proof.
+  unfold occupy_service. destruct (pool_of e (cf svc)); [|reflexivity]. destruct (overlapb _ svc); [|reflexivity].
+  unfold cc_occupy. destruct (pool_of e (cf svc)); [|reflexivity]. destruct (occupy _ svc); [|reflexivity]. destruct (cf svc); reflexivity.
+Qed.
+Lemma occupy_services_grows svcs : forall e, EntryInv e -> Forall wf_cidr svcs -> grows e (occupy_services e svcs) /\ cc_assoc (occupy_services e svcs) = cc_assoc e.
+Proof.
+  unfold occupy_services. induction svcs as [|s svcs IH]; intros e E Hw; cbn [fold_left]; [split; [apply grows_refl|reflexivity]|].
+  inversion Hw as [|s0 l0 Hs1 Hs2]; subst. destruct (IH (occupy_service e s) (occupy_service_inv e s E Hs1) Hs2) as [G A]. split.
+  - eapply grows_trans; [apply occupy_service_grows; [exact E|exact Hs1]|exact G].
+  - rewrite A. apply occupy_service_assoc.
+Qed.
+
+Theorem release_cidr_keeps svcs m node m' r : MapInv m -> Forall wf_cidr svcs -> wf_node node -> release_cidr svcs m node = (m', r) ->
   forall name k, Held m name k -> name <> n_name node ->
     (forall c canon, In (PGood c canon) (n_cidrs node) -> overlapb c k = false) -> Held m' name k.
 Proof.
-  intros M Hw H name k Hk Hne Hov. unfold release_cidr in H.
+  intros M Hsv Hw H name k Hk Hne Hov. unfold release_cidr in H.
   destruct (n_cidrs node) as [|pc0 pcs] eqn:En; [inversion H; subst; exact Hk|].
   destruct (assoc_paths m (n_name node)) as [|p0 ps]; [inversion H; subst; exact Hk|].
-  assert (G : forall ps m0 m2 r2, MapInv m0 -> release_all m0 node ps = (m2, r2) -> Held m0 name k -> Held m2 name k).
+  assert (G : forall ps m0 m2 r2, MapInv m0 -> release_all svcs m0 node ps = (m2, r2) -> Held m0 name k -> Held m2 name k).
   { clear H Hk. intros ps0. induction ps0 as [|p ps0 IH]; intros m0 m2 r2 M0 H Hk; cbn in H; [inversion H; subst; exact Hk|].
     destruct (get_entry m0 p) as [e|] eqn:Eg; [|inversion H; subst; exact Hk].
     pose proof (get_entry_inv _ _ _ M0 Eg) as Ee.
     destruct (release_pcidrs e (n_cidrs node)) as [e' rr] eqn:Erp.
     destruct (release_pcidrs_keeps _ _ _ _ Ee Hw Erp) as [Hassoc Hkeep].
     assert (Hstep : forall e2, cc_assoc e2 = remove_str (n_name node) (cc_assoc e') \/ cc_assoc e2 = cc_assoc e' ->
-              (forall f, pool_of e2 f = pool_of e' f) -> Held (set_entry m0 p e2) name k).
+              (forall f pl, pool_of e' f = Some pl -> exists pl2, pool_of e2 f = Some pl2 /\ forall c, In c (used pl) -> In c (used pl2)) ->
+              Held (set_entry m0 p e2) name k).
     { intros e2 Ha2 Hp2. destruct Hk as (x0 & pl & Hx0 & Ha & Hp & Hc).
       destruct (set_entry_cover m0 p e e2 x0 Eg Hx0) as [Hin| ->].
       - exists x0, pl. repeat split; assumption.
       - destruct (Hkeep _ _ _ Hp Hc) as (pl' & Hp' & Hin').
         { intros c canon Hc0. apply (Hov c canon). rewrite <- En. exact Hc0. }
-        exists e2, pl'. split; [eapply set_entry_new; exact Eg|]. split.
+        destruct (Hp2 _ _ Hp') as (pl2 & Hp2' & Hu2).
+        exists e2, pl2. split; [eapply set_entry_new; exact Eg|]. split.
         + destruct Ha2 as [-> | ->]; [apply has_str_remove; [exact Hne|rewrite Hassoc; exact Ha]|rewrite Hassoc; exact Ha].
-        + split; [rewrite Hp2; exact Hp'|exact Hin']. }
+        + split; [exact Hp2'|apply Hu2; exact Hin']. }
+    pose proof (release_pcidrs_inv _ _ _ _ Ee Hw Erp) as Ee'.
+    destruct (occupy_services_grows svcs e' Ee' Hsv) as [[_ Gp] Ga].
     destruct rr as [[]|er|].
     - eapply IH; [|exact H|].
-      + apply set_entry_inv; [exact M0|]. apply del_assoc_inv. eapply release_pcidrs_inv; eassumption.
-      + apply Hstep; [left; reflexivity|intros f; destruct f; reflexivity].
-    - inversion H; subst. apply Hstep; [right; reflexivity|reflexivity].
-    - inversion H; subst. apply Hstep; [right; reflexivity|reflexivity]. }
+      + apply set_entry_inv; [exact M0|]. apply del_assoc_inv. apply occupy_services_inv; assumption.
+      + apply Hstep; [left; cbn; rewrite Ga; reflexivity|]. intros f pl Hpl. destruct (Gp f pl Hpl) as (pl2 & H2 & U2). exists pl2. split; [destruct f; exact H2|exact U2].
+    - inversion H; subst. apply Hstep; [right; reflexivity|]. intros f pl Hpl. exists pl. split; [exact Hpl|auto].
+    - inversion H; subst. apply Hstep; [right; reflexivity|]. intros f pl Hpl. exists pl. split; [exact Hpl|auto]. }
   eapply G; eassumption.
 Qed.
 
@@ -689,9 +712,9 @@ Proof.
 Qed.
 
 (* ---------- the same at the level of syncNode ---------- *)
-Theorem sync_node_keeps po lab canp apisame held m cached reread outs m' r fx :
+Theorem sync_node_keeps po lab svcs canp apisame held m cached reread outs m' r fx :
   MapInv m -> (forall n, cached = Some n -> wf_node n /\ n_deleting n = false) -> r <> Panic ->
-  sync_node po lab canp apisame held m cached reread outs = (m', r, fx) ->
+  sync_node po lab svcs canp apisame held m cached reread outs = (m', r, fx) ->
   mono m m' /\
   (forall nm cs o, In (FxPatch nm cs o) fx -> forall name k, Held m name k -> forall x, In x cs -> overlapb x k = false) /\
   (forall nm cs o, In (FxPatch nm cs o) fx -> r = Ok tt \/ In (FxGetNode nm false) fx -> forall x, In x cs -> Held m' nm x).
@@ -703,8 +726,8 @@ Proof.
   split; [exact A|]. split; [exact D|].
   intros nm cs o Hin Hor x Hx.
   assert (Hnm : nm = n_name node).
-  { assert (Hs : sync_node po lab canp apisame held m (Some node) reread outs = (m', r, fx)) by (unfold sync_node; rewrite Hd; exact H).
-    destruct (sync_node_patches po lab canp apisame held m (Some node) reread outs m' r fx Hs nm cs o Hin) as ((nd & E1 & E2 & _) & _).
+  { assert (Hs : sync_node po lab svcs canp apisame held m (Some node) reread outs = (m', r, fx)) by (unfold sync_node; rewrite Hd; exact H).
+    destruct (sync_node_patches po lab svcs canp apisame held m (Some node) reread outs m' r fx Hs nm cs o Hin) as ((nd & E1 & E2 & _) & _).
     inversion E1; subst nd. exact E2. }
   subst nm. destruct Hor as [Hr|Hg].
   - eapply B; [exact Hr|exists o; exact Hin|exact Hx].
@@ -747,11 +770,11 @@ Proof.
     destruct (release_in m1 p cs) as [m2 r2]; cbn [snd] in Hrp; inversion H; subst; destruct r2 as [[]|?|]; try discriminate; congruence.
 Qed.
 
-Theorem sync_node_panic_writes_nothing po lab canp apisame held m cached reread outs m' fx :
-  MapInv m -> sync_node po lab canp apisame held m cached reread outs = (m', Panic, fx) -> fx = [].
+Theorem sync_node_panic_writes_nothing po lab svcs canp apisame held m cached reread outs m' fx :
+  MapInv m -> sync_node po lab svcs canp apisame held m cached reread outs = (m', Panic, fx) -> fx = [].
 Proof.
   intros M H. unfold sync_node in H. destruct cached as [node|]; [|inversion H; reflexivity].
-  destruct (n_deleting node); [destruct (release_cidr m node); inversion H; reflexivity|].
+  destruct (n_deleting node); [destruct (release_cidr svcs m node); inversion H; reflexivity|].
   unfold allocate_or_occupy in H. destruct (n_cidrs node) as [|c0 cs0].
   2:{ destruct reread; [destruct (occupy_cidrs po lab m node)|]; inversion H; reflexivity. }
   destruct (prioritized_cidrs po lab held m node) as [m1 rp] eqn:Ep.
@@ -809,12 +832,12 @@ Proof.
   right. apply in_or_app. right. left. reflexivity.
 Qed.
 
-Theorem sync_node_applied_is_kept po lab canp apisame held m cached reread outs m' r fx :
-  MapInv m -> sync_node po lab canp apisame held m cached reread outs = (m', r, fx) ->
+Theorem sync_node_applied_is_kept po lab svcs canp apisame held m cached reread outs m' r fx :
+  MapInv m -> sync_node po lab svcs canp apisame held m cached reread outs = (m', r, fx) ->
   forall nm cs o, In (FxPatch nm cs o) fx -> o = POk \/ o = PTimeoutApplied -> r = Ok tt \/ In (FxGetNode nm false) fx.
 Proof.
   intros M H nm cs o Hin Ho. unfold sync_node in H. destruct cached as [node|]; [|inversion H; subst; destruct Hin].
-  destruct (n_deleting node); [destruct (release_cidr m node); inversion H; subst; destruct Hin|].
+  destruct (n_deleting node); [destruct (release_cidr svcs m node); inversion H; subst; destruct Hin|].
   unfold allocate_or_occupy in H. destruct (n_cidrs node) as [|c0 cs0].
   2:{ destruct reread; [destruct (occupy_cidrs po lab m node)|]; inversion H; subst; destruct Hin. }
   destruct (prioritized_cidrs po lab held m node) as [m1 rp] eqn:Ep.
@@ -829,12 +852,12 @@ Proof.
   - inversion H; subst. destruct Hin.
 Qed.
 
-Lemma sync_node_patches_same po lab canp apisame held m cached reread outs m' r fx :
-  sync_node po lab canp apisame held m cached reread outs = (m', r, fx) ->
+Lemma sync_node_patches_same po lab svcs canp apisame held m cached reread outs m' r fx :
+  sync_node po lab svcs canp apisame held m cached reread outs = (m', r, fx) ->
   forall n1 c1 o1 n2 c2 o2, In (FxPatch n1 c1 o1) fx -> In (FxPatch n2 c2 o2) fx -> n1 = n2 /\ c1 = c2.
 Proof.
   intros H n1 c1 o1 n2 c2 o2 H1 H2. unfold sync_node in H. destruct cached as [node|]; [|inversion H; subst; destruct H1].
-  destruct (n_deleting node); [destruct (release_cidr m node); inversion H; subst; destruct H1|].
+  destruct (n_deleting node); [destruct (release_cidr svcs m node); inversion H; subst; destruct H1|].
   unfold allocate_or_occupy in H. destruct (n_cidrs node) as [|c0 cs0].
   2:{ destruct reread; [destruct (occupy_cidrs po lab m node)|]; inversion H; subst; destruct H1. }
   destruct (prioritized_cidrs po lab held m node) as [m1 rp].
